@@ -375,3 +375,17 @@ package sqlite
 //@ nopanic C13
 //@ requires s != nil && s.worker != nil && !closed(s.worker.flush)
 //@ ensures calls("flush") == 1 && callarg("flush", 0, 0) == s.worker && callarg("flush", 0, 1) == t
+
+// The store worker loop (C12, C06): every collected batch is processed exactly once, every completion Process
+// returns is handed back exactly once (the inner loop is left only through its header), an empty batch is not
+// executed, and the loop ends only when the submission queue is closed.
+//@ func (*SqliteStoreWorker).Start
+//@ props C12 C06
+//@ abstract-calls .*
+//@ requires w != nil && w.config != nil
+//@ loop-complete 2
+//@ site call Collect assert c == w.sq && f == w.flush && n == w.config.BatchSize
+//@ site call Process assert sameslice(caller_sqes, sqes) && itercalls("Process") == 0
+//@ site loop 2 call EnqueueCQE assert arg0 == cqe
+//@ site loop 2 backedge assert itercalls("EnqueueCQE") == 1
+//@ site return assert !ok
